@@ -6,7 +6,7 @@ set_option maxRecDepth 100000
 
 /-- status, page returned -/
 def cexD3Out : Res × Nat × Nat :=
-  match searchNext exAb walkFuel cexD3 ((searchNew 0x8FF ANY_SUBNO 2).getD {}) 1 with
+  match searchNext Shape.current exAb walkFuel cexD3 ((searchNew 0x8FF ANY_SUBNO 2).getD {}) 1 with
   | o => (o.res, o.st.pgPgno, o.st.pgSubno)
 
 theorem cexD3_search : cexD3Out = (.ret SEARCH_SUCCESS, 0x899, 0) := by decide +kernel
